@@ -156,10 +156,10 @@ def msetGuardKeys (c : Cmd) : List Bytes := (List.range (c.length / 2)).filterMa
 /-- `(1..arg_len - 1).filter_map(|i| get_command_element(i))` (blocking commands; `arg_len > 2`) -/
 def blockingGuardKeys (c : Cmd) : List Bytes := (List.range' 1 (c.length - 2)).filterMap (elem c)
 
-/-- `(3..3 + key_num).filter_map(..)`; `3 + key_num` wraps in release builds (`usize` = 64 bit) -/
+/-- `(3..3 + key_num).filter_map(..)` (`key_num ≤ arg_len` is checked by `handle_eval_cmd` since /repo
+2c9766f, so the sum cannot overflow) -/
 def evalKeys (keyNum : Nat) (c : Cmd) : List Bytes :=
-  let hi := (3 + keyNum) % 18446744073709551616
-  (List.range' 3 (hi - 3)).filterMap (elem c)
+  (List.range' 3 keyNum).filterMap (elem c)
 
 /-- `for i in 1.. { match element(i) { Some(k) => .., None => break } }` -/
 def leadingKeys : List Arg → List Bytes
@@ -316,9 +316,12 @@ def handleBlocking (dt : String) (c : Cmd) : Handled :=
         | some timeout =>
           if !cfg.activeRedirection && !sameSlot (blockingGuardKeys c) then
             { reply := notSameSlot, dispatched := [] }
+          else if (blockingSubs dt nb c).isEmpty then
+            -- /repo 0d5fc60: without any sub-command nothing would ever answer the request
+            { reply := .error (bs "ERR invalid key argument"), dispatched := [] }
           else blockingPass cfg cm backend dt (timeout == 0 || 0 < timeout) (blockingSubs dt nb c) []
 
-/-- `handle_eval_cmd` + `handle_multi_key_eval_cmd` (only `DataCmdType::Eval` is dispatched here) -/
+/-- `handle_eval_cmd` + `handle_multi_key_eval_cmd` (EVAL and, since /repo 7ad1e99, EVALSHA) -/
 def handleEval (redirTimes : Option Nat) (c : Cmd) : Handled :=
   match elem c 2 with
   | none => { reply := .error (bs "ERR: Missing `numkeys` for EVAL"), dispatched := [] }
@@ -327,7 +330,10 @@ def handleEval (redirTimes : Option Nat) (c : Cmd) : Handled :=
     | none => { reply := .error (bs "ERR: Invalid `numkeys`"), dispatched := [] }
     | some keyNum =>
       let d := sendOne cfg cm redirTimes c
-      if keyNum = 1 then { reply := replyOf backend d, dispatched := [d] }
+      if keyNum > c.length then
+        -- /repo 2c9766f
+        { reply := .error (bs "ERR: `numkeys` is greater than the number of arguments"), dispatched := [] }
+      else if keyNum = 1 then { reply := replyOf backend d, dispatched := [d] }
       else if !sameSlot (evalKeys keyNum c) then { reply := notSameSlot, dispatched := [] }
       else { reply := replyOf backend d, dispatched := [d] }
 
